@@ -133,13 +133,17 @@ class Distribution(DistributionModel):
         return self.distribution.batch_shape
 
     def _sample_shape(self) -> torch.Size:
+        # shape of log_prob(x): x and the parameters of the distribution are
+        # broadcast, whichever of them carries the sample dimensions
+        distribution = self.distribution
         x_shape = self.x.tensor.shape
-        if len(x_shape) > len(self.batch_shape):
-            offset = 1 if len(self.batch_shape) == 0 else len(self.batch_shape)
-            return x_shape[:-offset]
-        else:
-            # the distribution is a likelihood term
-            return self.batch_shape[: -len(x_shape)]
+        event_dim = len(distribution.event_shape)
+        shape = torch.broadcast_shapes(
+            distribution.batch_shape, x_shape[: len(x_shape) - event_dim]
+        )
+        # the last dimension of a univariate distribution indexes the elements
+        # of the parameter, not samples
+        return shape if event_dim > 0 else shape[:-1]
 
     @property
     def distribution(self) -> torch.distributions.Distribution:
